@@ -67,7 +67,7 @@ theorem listOps_listLike : ListLike listOps id (fun q => q.Nodup) (fun _ => True
     exact ⟨nodup_insertIdx _ hq hh (Nat.min_le_right _ _), rfl⟩
   callPos q p h hq hh := by
     show (Deque.callPos q (p : Int) h).Nodup ∧ Deque.callPos q (p : Int) h = _
-    rw [Deque.callPos_nat]
+    rw [Deque.callPos_nat q p h hh]
     exact ⟨nodup_insertIdx _ hq hh (Nat.min_le_right _ _), rfl⟩
   find_none q key rm _ h := Deque.queueFind_absent q key rm h
   find_some q key rm x hq hx hk hu := by
@@ -78,7 +78,7 @@ theorem listOps_listLike : ListLike listOps id (fun q => q.Nodup) (fun _ => True
       | false => rfl
       | true => exact absurd (hu b (by simp [hb]) hkb) (fun e => hxB (e ▸ hb))
     show (Deque.queueFind _ key rm).1 = _ ∧ (Deque.queueFind _ key rm).2.Nodup ∧ (Deque.queueFind _ key rm).2 = _
-    rw [Deque.queueFind_last A B x key rm hk hB]
+    rw [Deque.queueFind_last A B x key rm hk hB hxA]
     cases rm
     · exact ⟨rfl, hq, rfl⟩
     · refine ⟨rfl, ?_, ?_⟩
@@ -88,8 +88,8 @@ theorem listOps_listLike : ListLike listOps id (fun q => q.Nodup) (fun _ => True
         exact he.symm
   remove_none q h _ hh := Deque.queueRemove_absent q h hh
   remove_some q h hq hh := by
-    obtain ⟨A, B, rfl, _, hxB, he⟩ := split_of_mem_nodup hh hq
-    refine ⟨A ++ B, Deque.queueRemove_last A B h hxB, ?_, he.symm⟩
+    obtain ⟨A, B, rfl, hxA, _, he⟩ := split_of_mem_nodup hh hq
+    refine ⟨A ++ B, Deque.queueRemove_mid A B h hxA, ?_, he.symm⟩
     rw [← he]; exact hq.erase h
   popleft_nil q _ h := by
     have : q = [] := h
